@@ -107,7 +107,7 @@ def build_unit(plan, u, bdir, tier):
         ll = ll + '.opt'
     gen = os.path.join(ud, 'gen.c')
     symf = os.path.join(ud, 'sym.json')
-    cmd = [os.path.join(VERIF, 'bin', 'ir2c'), ll, '-o', gen, '-sym', symf]
+    cmd = [os.path.join(VERIF, 'bin', 'ir2c'), ll, '-o', gen, '-sym', symf] + (['-ufmul'] if u.ufmul else [])
     for s in u.specs:
         sp = os.path.join(ud, s) if s in plan.generated else os.path.join(pdir, s)
         cmd += ['-spec', sp]
@@ -223,6 +223,7 @@ def run_job(plan, j, tier):
             R.reason = 'goto-instrument --dfcc failed: ' + (err + out)[-2500:]
             return R
         gb = gb2
+    j.timeout = int(j.timeout * float(os.environ.get('VF_TIMEOUT_SCALE', '1')))
     base = ['cbmc', gb, '--object-bits', '12', '--json-ui'] + j.extra_cbmc
     if j.unwind is not None:
         base += ['--unwind', str(j.unwind), '--unwinding-assertions']
